@@ -74,6 +74,19 @@ impl<'i> Input<'i> {
     // T: Input::new (trims C0 control / space characters at both ends)
     #[verifier::external_body]
     pub fn new(input: &'i str) -> (r: Self) { unimplemented!() }
+    // T: Iterator::next on the cursor
+    #[verifier::external_body]
+    pub fn next(&mut self) -> (r: Option<char>)
+        ensures match r {
+            Some(c) => old(self).v@.len() > 0 && c == old(self).v@[0] && final(self).v@ == old(self).v@.skip(1),
+            None => old(self).v@.len() == 0 && final(self).v@ == old(self).v@,
+        }
+    { unimplemented!() }
+    #[verifier::external_body]
+    pub fn vf_is_empty(&self) -> (r: bool) ensures r == (self.v@.len() == 0) { unimplemented!() }
+    // R6: `input.starts_with(|c: char| c.is_ascii_alphabetic())`
+    #[verifier::external_body]
+    pub fn vf_starts_alpha(&self) -> (r: bool) ensures r == (self.v@.len() > 0 && (('a' <= self.v@[0] && self.v@[0] <= 'z') || ('A' <= self.v@[0] && self.v@[0] <= 'Z'))) { unimplemented!() }
     // R6: `input.chars.as_str()` — the text not yet consumed
     #[verifier::external_body]
     pub fn vf_rest(&self) -> (r: &'i str) ensures r@ == self.v@ { unimplemented!() }
@@ -132,6 +145,18 @@ fn vf_idna(s: &str) -> (r: ParseResult<String>)
 //@END
 //@EXTRACT src/url_parser/parser.rs :: struct Parser
 //@END
+
+// scheme characters (URL standard): ASCII letters, digits, '+', '-', '.'
+pub open spec fn scheme_char(c: char) -> bool { ('a' <= c && c <= 'z') || ('A' <= c && c <= 'Z') || ('0' <= c && c <= '9') || c == '+' || c == '-' || c == '.' }
+pub open spec fn scheme_chars(t: Seq<char>) -> bool { forall|i: int| 0 <= i < t.len() ==> scheme_char(#[trigger] t[i]) }
+// n is where the first ':' stands; before it only scheme characters; `ser` is that text in lower case, `rest` what follows the ':'
+pub open spec fn scheme_split(a: Seq<char>, n: int, ser: Seq<char>, rest: Seq<char>) -> bool {
+    0 <= n < a.len() && a[n] == ':' && scheme_chars(a.take(n)) && ser =~= ascii_lower(a.take(n)) && rest =~= a.skip(n + 1)
+}
+#[verifier::external_body]
+fn vf_lower(c: char) -> (r: char) ensures r == lower_char(c) { c.to_ascii_lowercase() }
+#[verifier::external_body]
+fn vf_clear(s: &mut String) ensures final(s)@.len() == 0 { s.clear() }
 
 // the three offsets are byte lengths of character prefixes of the text, in order
 pub open spec fn wf(h: Hostname) -> bool {
@@ -202,7 +227,7 @@ impl VfRange {
 }
 
 #[verifier::external_body]
-fn vf_with_capacity(n: usize) -> (r: String) { String::with_capacity(n) }
+fn vf_with_capacity(n: usize) -> (r: String) ensures r@.len() == 0 { String::with_capacity(n) }
 impl Hostname {
 //@EXTRACT src/url_parser/parser.rs :: impl Hostname :: fn parse
 //@ RET r
@@ -479,14 +504,77 @@ impl Parser {
 //@ ENDSUBST
 //@END
 
-    // parse_scheme (scheme characters, lower-cased, up to ':'): whatever it leaves in the buffer, the offsets are taken afterwards
-    #[verifier::external_body]
-    pub fn parse_scheme<'i>(&mut self, input: Input<'i>) -> (r: Result<Input<'i>, ()>) { unimplemented!() }
+//@EXTRACT src/url_parser/parser.rs :: impl Parser :: fn parse_scheme
+//@ RET r
+//@ SAFETY C12.scheme.safety
+//@ ATTR #[verifier::exec_allows_no_decreases_clause]
+//@ SPEC
+        requires old(self).serialization@.len() == 0,
+        ensures
+            // the scheme of the normalised URL is the text before the first ':' in lower case ("only http, https, ws and wss ..." is
+            // decided on this text)
+            r is Ok ==> exists|n: int| #[trigger] scheme_split(input0.v@, n, final(self).serialization@, r->Ok_0.v@), // OBL C12.scheme.lower_cased
+//@ ENDSPEC
+//@ SUBST R1
+    mut input: Input<'i>
+//@ WITH
+    input0: Input<'i>
+//@ ENDSUBST
+//@ FNSTART
+        // R1: `fn f(mut input: T)` spelled as `fn f(input0: T) { let mut input = input0; .. }` (a move), so that the contract can name
+        // the value the function was called with
+        let mut input = input0;
+        let ghost a = input0.v@;
+        let ghost mut n: int = 0;
+        proof { assert(a.skip(0) =~= a); assert(a.take(0) =~= Seq::<char>::empty()); assert(ascii_lower(a.take(0)) =~= Seq::<char>::empty()); }
+//@ ENDFNSTART
+//@ SUBST R6
+    input.is_empty() || !input.starts_with(|c: char| c.is_ascii_alphabetic())
+//@ WITH
+    input.vf_is_empty() || !input.vf_starts_alpha()
+//@ ENDSUBST
+//@ SUBST R1
+    debug_assert!(self.serialization.is_empty());
+//@ WITH
+//@ ENDSUBST
+//@ LOOP 1
+            invariant
+                a == input0.v@, 0 <= n <= a.len(), input.v@ =~= a.skip(n), scheme_chars(a.take(n)), self.serialization@ =~= ascii_lower(a.take(n)), // OBL C12.scheme.lower_cased
+//@ ENDLOOP
+//@ LOOPSTART 1
+            proof {
+                assert(c == a[n]);
+                assert(a.take(n + 1) =~= a.take(n).push(c));
+                assert(ascii_lower(a.take(n + 1)) =~= ascii_lower(a.take(n)).push(lower_char(c)));
+                assert(a.skip(n).skip(1) =~= a.skip(n + 1));
+                if c == ':' { assert(scheme_split(a, n, self.serialization@, input.v@)); }
+            }
+//@ ENDLOOPSTART
+//@ SUBST R6*
+    self.serialization.push(c)
+//@ WITH
+    vf_push(&mut self.serialization, c)
+//@ ENDSUBST
+//@ SUBST R6
+    self.serialization.push(c.to_ascii_lowercase())
+//@ WITH
+    vf_push(&mut self.serialization, vf_lower(c))
+//@ ENDSUBST
+//@ SUBST R6
+    self.serialization.clear();
+//@ WITH
+    vf_clear(&mut self.serialization);
+//@ ENDSUBST
+//@ LOOPEND 1
+            proof { n = n + 1; }
+//@ ENDLOOPEND
+//@END
 
 //@EXTRACT src/url_parser/parser.rs :: impl Parser :: fn parse_url
 //@ RET r
 //@ SAFETY C12.offsets.parse_url.safety
 //@ SPEC
+        requires vf_self.serialization@.len() == 0,
         ensures
             r is Ok ==> wf(r->Ok_0), // OBL C12.offsets.parse_url.wf
 //@ ENDSPEC
@@ -507,6 +595,21 @@ impl Parser {
 //@ ENDSUBST
 //@END
 }
+
+// T (std): the ASCII character classes a rewrite of this predicate may reach for
+pub assume_specification [ char::is_ascii_whitespace ](c: &char) -> (r: bool)
+    ensures r == (*c == ' ' || *c == '\t' || *c == '\n' || *c == '\x0C' || *c == '\r');
+pub assume_specification [ char::is_ascii_control ](c: &char) -> (r: bool)
+    ensures r == ((*c as u32) < 0x20 || (*c as u32) == 0x7f);
+
+// what Input::new trims from both ends of a URL text: "C0 control or space" (URL standard): U+0000 ..= U+0020
+//@EXTRACT src/url_parser/parser.rs :: fn c0_control_or_space
+//@ RET r
+//@ SAFETY C12.trim.c0_control_or_space.safety
+//@ SPEC
+    ensures r == (ch as u32 <= 0x20), // OBL C12.trim.c0_control_or_space
+//@ ENDSPEC
+//@END
 
 proof fn vf_canary() ensures false {}
 
